@@ -501,7 +501,19 @@ def rule_show_config_covers_all(prog, fixture=False):
             ok = any(x.get("k") == "MemberExpr" and x.get("n") == "drives_" for x in walk(rng))
             r.add(key, fn.loc(lp), ok, "iterates over the drive table itself" if ok else "the listing does not walk the drive table")
             continue
-        cn = strip_all(lp["c"][-1] if lp["k"] == "DoStmt" else lp["c"][lp["parts"]["cond"]])
+        if lp["k"] != "DoStmt" and "cond" not in lp.get("parts", {}):
+            # for (k = 0; ; ++k) { ...; if (k == last) break; }
+            cn = None
+            for x in walk(lp["c"][lp["parts"]["body"]]):
+                if x.get("k") == "IfStmt" and (strip_all(x["c"][x["parts"]["then"]]) or {}).get("k") == "BreakStmt" or \
+                        (x.get("k") == "IfStmt" and any(y.get("k") == "BreakStmt" for y in walk(x["c"][x["parts"]["then"]])) and
+                         len(list(walk(x["c"][x["parts"]["then"]]))) <= 3):
+                    c_ = strip_all(x["c"][x["parts"]["cond"]])
+                    if c_ is not None and c_.get("op") in ("==", ">="):
+                        cn = dict(c_)
+                        cn["op"] = "!="
+        else:
+            cn = strip_all(lp["c"][-1] if lp["k"] == "DoStmt" else lp["c"][lp["parts"]["cond"]])
         lim = None
         if cn is not None and cn.get("k") in ("CXXOperatorCallExpr", "BinaryOperator") and cn.get("op") in ("<", "<=", "!="):
             ops = cn["c"][1:] if cn["k"] == "CXXOperatorCallExpr" else cn["c"]
@@ -516,11 +528,21 @@ def rule_show_config_covers_all(prog, fixture=False):
             r.undecided.append("%s: cannot identify the loop limit" % fn.qn)
             continue
 
-        def highest_key(e):
-            # drives_.rbegin()->first, possibly inside std::max(...)
-            return any(x.get("k") == "MemberExpr" and x.get("n") == "first" and
-                       any(y.get("k") == "CXXMemberCallExpr" and (strip(y["c"][0]) or {}).get("n") in ("rbegin", "crbegin")
-                           for y in walk(x)) for x in walk(e))
+        def highest_key(e, depth=0):
+            # drives_.rbegin()->first, possibly inside std::max(...), possibly through a never-reassigned local
+            if any(x.get("k") == "MemberExpr" and x.get("n") == "first" and
+                   any(y.get("k") == "CXXMemberCallExpr" and (strip(y["c"][0]) or {}).get("n") in ("rbegin", "crbegin")
+                       for y in walk(x)) for x in walk(e)):
+                return True
+            if depth > 3:
+                return False
+            for x in walk(e):
+                if x.get("k") == "DeclRefExpr" and x.get("dk") == "Var" and x.get("d") != lim.get("d") and \
+                        not any(d_ == x["d"] for y in fn.walk() for d_, _ in flow.written_decls(y)):
+                    for v in fn.walk():
+                        if v.get("k") == "VarDecl" and v.get("d") == x["d"] and v.get("c") and highest_key(v["c"][0], depth + 1):
+                            return True
+            return False
 
         def transfer(x):
             tgt = rhs = None
@@ -583,6 +605,25 @@ def rule_enumeration_covers_all(prog, fixture=False):
             if x is not None and x.get("k") == "DeclRefExpr" and x.get("dk") == "Var" and "vector" in (x.get("t") or x.get("ct") or ""):
                 vec.add(x["d"])
         for d in vec:
+            # filled by a standard algorithm over the whole table
+            for n in fn.walk():
+                if n.get("k") == "CallExpr" and notpl(n.get("q") or "") in ("std::transform", "std::copy", "std::for_each", "std::copy_if"):
+                    a = call_args(n)
+                    into = any(x.get("k") == "CallExpr" and notpl(x.get("q") or "") == "std::back_inserter" and
+                               any(y.get("k") == "DeclRefExpr" and y.get("d") == d for y in walk(x)) for x in walk(n))
+                    if not into or len(a) < 2:
+                        continue
+
+                    def ends(e, names):
+                        e = strip_all(e)
+                        return e is not None and e.get("k") == "CXXMemberCallExpr" and (strip(e["c"][0]) or {}).get("n") in names and \
+                            any(x.get("k") == "MemberExpr" and "map" in (x.get("t") or x.get("ct") or "") for x in walk(e))
+                    whole = ends(a[0], ("begin", "cbegin")) and ends(a[1], ("end", "cend"))
+                    key = "%s::%s::enumeration" % (fn.relfile(), fn.qn)
+                    if whole and notpl(n.get("q")) != "std::copy_if":
+                        r.add(key, fn.loc(n), True, "standard algorithm over the whole table")
+                    else:
+                        r.undecided.append("%s: cannot tell which part of the table this algorithm call covers" % fn.loc(n))
             pushes = [n for n in fn.walk() if n.get("k") == "CXXMemberCallExpr" and
                       (strip(n["c"][0]) or {}).get("n") in ("push_back", "emplace_back") and
                       (strip_all((strip(n["c"][0]) or {}).get("c", [None])[0]) or {}).get("d") == d]
@@ -630,23 +671,38 @@ def rule_policy_in_force(prog, fixture=False):
                    floor=0 if fixture else 1)
     LOOPS = ("ForStmt", "WhileStmt", "DoStmt", "CXXForRangeStmt")
 
-    def judge(fn, n, v, via, depth):
-        """n: a call in fn one of whose arguments is the policy expression v."""
-        v = strip_all(v)
-        if v is None or depth > 3:
+    def path_of(e):
+        """(root DeclRefExpr, tuple of field names) of `x`, `x.f`, `x.f.g`; (None, ()) otherwise."""
+        e = strip_all(e)
+        fields = []
+        while e is not None and e.get("k") == "MemberExpr" and e.get("dk") == "Field" and e.get("c"):
+            fields.append(e.get("n"))
+            e = strip_all(e["c"][0])
+        if e is not None and e.get("k") == "DeclRefExpr" and e.get("dk") in ("Var", "ParmVar"):
+            return e, tuple(reversed(fields))
+        return None, ()
+
+    def judge(fn, n, v, via, depth, fields=()):
+        """n: a call in fn one of whose arguments carries the policy: the expression v followed by `fields`."""
+        root, fs = path_of(v)
+        if root is None or depth > 3:
             return
-        if v.get("k") == "DeclRefExpr" and v.get("dk") == "ParmVar":
-            idx = [i for i, p_ in enumerate(fn.params) if p_["d"] == v["d"]]
+        fs = fs + tuple(fields)
+        if root.get("dk") == "ParmVar":
+            idx = [i for i, p_ in enumerate(fn.params) if p_["d"] == root["d"]]
             for g in prog.functions.values():
                 for c in g.walk():
                     if is_call(c) and fn in prog.call_targets(g, c) and idx and idx[0] < len(call_args(c)):
-                        judge(g, c, call_args(c)[idx[0]], via + [fn.name], depth + 1)
+                        judge(g, c, call_args(c)[idx[0]], via + [fn.name], depth + 1, fs)
             return
-        if v.get("k") != "DeclRefExpr" or v.get("dk") != "Var":
-            return
-        writes = [w for w in fn.walk() if w.get("k") == "BinaryOperator" and w.get("op") == "=" and
-                  (strip_all(w["c"][0]) or {}).get("d") == v["d"]]
-        key = "%s::%s::connect_drives(%s)" % (fn.relfile(), fn.qn, v.get("n"))
+        writes = []
+        for w in fn.walk():
+            if w.get("k") in ("BinaryOperator", "CXXOperatorCallExpr") and w.get("op") == "=" and w.get("c"):
+                wr, wf = path_of(w["c"][-2])
+                if wr is not None and wr.get("d") == root["d"] and (wf == fs or wf == fs[:len(wf)]):
+                    writes.append(w)
+        name = ".".join((root.get("n"),) + fs)
+        key = "%s::%s::connect_drives(%s)" % (fn.relfile(), fn.qn, name)
         if not writes:
             r.add(key, fn.loc(n), True, "the policy is never changed", nontrivial=False)
             return
@@ -662,14 +718,14 @@ def rule_policy_in_force(prog, fixture=False):
               (" (through %s)" % ", ".join(via) if via else "") if ok else
               "the images are attached outside the loop in which `%s` is assigned (%s): every image is placed under "
               "the policy given last, not the one in force at its --file" %
-              (v.get("n"), ", ".join(fn.loc(w) for w in writes[:2])))
+              (name, ", ".join(fn.loc(w) for w in writes[:2])))
     for fn in prog.functions.values():
         for n in fn.walk():
             if not is_call(n) or notpl(n.get("q") or "").split("::")[-1] != "connect_drives":
                 continue
             for a in call_args(n):
                 v = strip_all(a)
-                if v is None or v.get("k") != "DeclRefExpr" or "DriveAllocation" not in (v.get("t") or v.get("ct") or ""):
+                if v is None or v.get("k") not in ("DeclRefExpr", "MemberExpr") or "DriveAllocation" not in (v.get("t") or v.get("ct") or ""):
                     continue
                 if fn.name == "connect_drives":
                     continue            # the images' own connect_drives forwarding to the storage configuration
